@@ -128,3 +128,24 @@ Proof.
     [reflexivity|lia|exact Hs| |lia].
   destruct Ht as [Ht|Ht]; [left; exact Ht|right; lia].
 Qed.
+
+(* ---- C14 at file level: the provisional header followed by complete frames and a cut frame ---- *)
+From FlacCodec Require Import Progress Interrupted.
+Theorem interrupted_file si others fs allb g gb m :
+  si_ok si -> blocks_ok others ->
+  Forall (frame_ok si) fs -> frames_bytes fs = Some allb ->
+  frame_ok si g -> write_frame g = Some gb -> (m < length gb)%nat ->
+  (si_total si = 0 \/ total_samples fs + h_bs (f_hdr g) <= si_total si) ->
+  match dec_stream (file_of si others (allb ++ firstn m gb)) with
+  | Some (si', out, e) => si' = si /\ out = map (fun f => interleave_frame (sem_frame f)) fs /\ is_end_panic e = false
+  | None => False
+  end.
+Proof.
+  intros Hsi Hok Hfs Hb Hg Hgw Hm Ht. unfold dec_stream. rewrite (read_file_metadata si others _ Hsi Hok).
+  pose proof (interrupted_stream si fs allb g gb m (S (length (allb ++ firstn m gb))) 0 [] Hfs Hb Hg Hgw Hm) as H.
+  assert (Ht' : si_total si = 0 \/ 0 + total_samples fs + h_bs (f_hdr g) <= si_total si) by (destruct Ht; [left; assumption|right; lia]).
+  specialize (H Ht').
+  assert (Hf : (length allb + m < S (length (allb ++ firstn m gb)))%nat) by (rewrite app_length, firstn_length; lia).
+  specialize (H Hf).
+  destruct (dec_frames _ si 0 (allb ++ firstn m gb) []) as [out e]. destruct H as [-> He]. cbn [rev app]. auto.
+Qed.
